@@ -1,30 +1,34 @@
 #!/bin/bash
-# setup_cmd: build everything from files on disk (offline): Coq development (full .vo
-# build), every extracted model driver, every Go harness against /repo's working tree.
-set -e
-cd /verif
+# setup_cmd: pre-build everything from files on disk (offline): the Coq development (full .vo
+# build of every claimed property's closure), every extracted model driver, every Go harness
+# against /repo's working tree.  This is only a warm-up: every ./check run rebuilds what it needs
+# itself and reports for its own property, so a failure to build ONE property here must not keep
+# the other properties' checks from running -- problems are printed and the script goes on.
+cd /verif || exit 1
 export GOFLAGS=-mod=mod GOPROXY=off
 unset GOTOOLCHAIN GOSUMDB
 mkdir -p .work evidence replay harness/bin
-( cd coq
+READY=$(python3 -c "import json; print(' '.join(json.load(open('ready.json'))))")
+( cd coq || exit 0
   files=$(find theories -name '*.v' ! -name 'Extract.v' | sort)
   coq_makefile -f _CoqProject -o Makefile $files
   printf '%s' "$(echo "$files" | tr ' ' '\n')" > .filelist
   targets=""
-  for id in $(python3 -c "import json; print(' '.join(json.load(open('/verif/ready.json'))))"); do
-    targets="$targets $(python3 -c "import json; print(json.load(open('/verif/props/$id.json'))['props_file'][:-2]+'.vo')")"
+  for id in $READY; do
+    targets="$targets $(python3 -c "import json; d=json.load(open('/verif/props/$id.json')); print(d['props_file'][:-2]+'.vo', 'theories/%s/Entry.vo' % d['coq_dir'])")"
   done
-  timeout 3000 make -j16 $targets > /verif/.work/coq-build.log 2>&1 || { tail -40 /verif/.work/coq-build.log; exit 1; } )
-READY=$(python3 -c "import json; print(' '.join(json.load(open('ready.json'))))")
+  timeout 3000 make -k -j16 $targets > /verif/.work/coq-build.log 2>&1 \
+    || { echo "setup: WARNING: part of the Coq development did not build (the affected property's check will report it):"; grep -B2 -A6 "Error" /verif/.work/coq-build.log | tail -40; } )
 for id in $READY; do
   p=$(python3 -c "import json,sys; print(json.load(open('props/$id.json'))['coq_dir'])")
-  tools/build_driver.sh "$p" &
+  ( tools/build_driver.sh "$p" > .work/driver-$id.log 2>&1 || echo "setup: WARNING: driver for $id did not build" ) &
 done
 wait
 cp /repo/go.sum harness/go.sum 2>/dev/null || true
-( cd harness
+( cd harness || exit 0
   for id in $READY; do
     h=$(python3 -c "import json,sys; print(json.load(open('../props/$id.json'))['harness'])")
-    timeout 3000 go build -tags verif -o bin/$h ./cmd/$h
+    timeout 3000 go build -tags verif -o bin/$h ./cmd/$h || echo "setup: WARNING: harness $h did not build"
   done )
 echo "setup done"
+exit 0
